@@ -1,1 +1,6 @@
 import CacheProofs.Props.C07
+import CacheProofs.Props.C09
+import CacheProofs.Props.C10
+import CacheProofs.Props.C11
+import CacheProofs.Props.C12
+import CacheProofs.Props.C18
